@@ -42,7 +42,7 @@ Theorem gen_ge_equiv : forall a b, PluginRef_dunder_ge a b = r_ge a b.
 Proof.
   intros a b. rewrite ge_lex. fields a b. unfold PluginRef_dunder_ge. cbn [rgroup rname rver].
   repeat rewrite cmp_leb_geb by cmp_ok_tac.
-  unfold Cmp.geb, Cmp.leb, Cmp.ltb, Cmp.eqb, vcmp. py_atoms.
+  unfold Cmp.geb, Cmp.leb, Cmp.ltb, Cmp.eqb, vcmp. rewrite ?pcmp_pair. unfold lex. py_atoms.
 Qed.
 Print Assumptions gen_ge_equiv.
 
